@@ -111,8 +111,8 @@ def csec(det):
 
 def cout_sec(o):
     if "ok" in o:
-        s = csec(o["ok"])
-        if s is None: return None
+        s = csec(o["ok"]) if isinstance(o["ok"], dict) else None
+        if s is None: return "(Crash 77)"      # the implementation wrote something that is not a detections section
         return f"(Ok ({s[0]}, {s[1]}))"
     if "err" in o: return f"(SigmaErr {SIGMA_ERR.get(o['err'], 99)})"
     return f"(Crash {CRASH.get(o['crash'], 1)})"
